@@ -47,7 +47,7 @@ func newScriptRunner(x *vs.Exec, script func(r *scriptRunner)) *scriptRunner {
 	// one failure domain per process: "plugin", "plugin#2", ...
 	n, _ := x.Data["runners"].(int)
 	n++
-	x.Data["runners"] = n
+	x.Put("runners", n)
 	name := "plugin"
 	if n > 1 {
 		name = fmt.Sprintf("plugin#%d", n)
